@@ -302,6 +302,13 @@ type transformationKey struct {
 }
 
 type transformationValue struct {
+	// src is the untransformed value the entry was computed from. A hit is
+	// only valid for the same source value: the key identifies an argument by
+	// (key pointer, position), which different values can share (positions
+	// shift with per-rule exclusions and selectors, all values of one name
+	// share the key pointer, and variables such as MATCHED_VAR change content
+	// during a phase).
+	src  string
 	arg  string
 	errs []error
 }
